@@ -102,8 +102,12 @@ class VecV:
 
 
 def deref(v):
+    hops = 0
     while isinstance(v, Ref):
         v = v.get()
+        hops += 1
+        if hops > 10000:       # a reference cycle in the abstract store would loop forever: fail closed instead
+            raise Unsupported("reference cycle in the abstract store")
     return v
 
 
@@ -702,7 +706,11 @@ class Interp:
                         return self.call_fn(f, [args[0]])
             return args[0]
         # transparent std helpers
-        if name in ("clone", "as_ref", "borrow", "deref", "to_owned", "as_deref", "into", "as_mut", "borrow_mut", "cloned", "copied") and len(args) == 1:
+        if name in ("clone", "to_owned", "cloned", "copied") and len(args) == 1:
+            # a copy is a value, never a reference to the place it was copied from (storing `x.clone()` back into x's own place
+            # must not create a reference cycle)
+            return deref(args[0])
+        if name in ("as_ref", "borrow", "deref", "as_deref", "into", "as_mut", "borrow_mut") and len(args) == 1:
             return args[0]
         if n.get("trait", "").startswith("core::cmp::PartialOrd") and name in ("lt", "le", "gt", "ge") and len(args) == 2:
             return self.binop({"lt": "<", "le": "<=", "gt": ">", "ge": ">="}[name], args[0], args[1], n)
